@@ -84,16 +84,6 @@ theorem primOK_fixedText : PrimOK .fixedText := by
   simp only [Prim.dec, h1, hl, h2, bind, Outcome.bind, pure, Slice.prepend_nil]
 
 /-! ### Any -/
-theorem foldl_addRef_ok : ∀ (refs : List Cell) (b b' : Builder),
-    refs.foldlM (fun b r => b.addRef r) b = .ok b' → b' = b.app [] refs
-  | [], b, b', h => by simp only [List.foldlM, pure] at h; cases h; simp
-  | r :: rs, b, b', h => by
-    simp only [List.foldlM] at h
-    obtain ⟨b1, hb1, h2⟩ := bind_ok_inv h
-    have h1 := Builder.addRef_ok hb1
-    have h3 := foldl_addRef_ok rs b1 b' h2
-    rw [h3, h1, Builder.app_app]; simp
-
 theorem primOK_any : PrimOK .any := by
   intro v b b' _ hd he
   cases v <;> simp only [Prim.inDom, Bool.false_eq_true] at hd
@@ -107,7 +97,7 @@ theorem primOK_any : PrimOK .any := by
   have hb := foldl_addRef_ok refs b1 b' he2
   refine ⟨bits, refs, by rw [hb, hb1', Builder.app_app]; simp, ?_⟩
   intro s _ hc
-  rcases hc with hng | ⟨h1, h2⟩
+  rcases hc with hng | ⟨h1, h2, _⟩
   · simp [Prim.greedy] at hng
   · refine ⟨s.prepend bits refs, ?_, fun hng => by simp [Prim.greedy] at hng⟩
     simp only [Prim.dec, Slice.prepend, h1, h2, List.append_nil]
@@ -752,7 +742,7 @@ theorem primOK_payloadV1toV4 : PrimOK .payloadV1toV4 := by
   simp only [Prim.encPayloadV1toV4, if_neg (by omega : ¬ Prim.valLen v > 4)] at he'
   refine ⟨_, _, payload_enc v b b' hd'.2 he', ?_⟩
   intro s _ hc
-  rcases hc with hng | ⟨h1, h2⟩
+  rcases hc with hng | ⟨h1, h2, _⟩
   · simp [Prim.greedy] at hng
   · refine ⟨s, ?_, fun _ => rfl⟩
     have := payload_dec v ((s.prepend (payloadChunk v).1 (payloadChunk v).2).refs.length + 1) [] s hd'.2 h2
@@ -879,7 +869,7 @@ theorem primOK_snake : PrimOK .snake := by
   obtain ⟨xs, rs, hb, hcase⟩ := snake_enc _ bs b b' he
   refine ⟨xs, rs, hb, ?_⟩
   intro s _ hc
-  rcases hc with hng | ⟨h1, h2⟩
+  rcases hc with hng | ⟨h1, h2, _⟩
   · simp [Prim.greedy] at hng
   · obtain ⟨s', hs'⟩ := snake_dec bs xs rs s h1 h2 hcase
     exact ⟨s', by simp [Prim.dec, hs', bind, Outcome.bind, pure], fun hng => by simp [Prim.greedy] at hng⟩
@@ -897,7 +887,7 @@ theorem primOK_bytesSnake : PrimOK .bytesSnake := by
   obtain ⟨xs, rs, hb, hcase⟩ := snake_enc _ (bytesToBits bs) b b' he
   refine ⟨xs, rs, hb, ?_⟩
   intro s _ hc
-  rcases hc with hng | ⟨h1, h2⟩
+  rcases hc with hng | ⟨h1, h2, _⟩
   · simp [Prim.greedy] at hng
   · obtain ⟨s', hs'⟩ := snake_dec (bytesToBits bs) xs rs s h1 h2 hcase
     refine ⟨s', ?_, fun hng => by simp [Prim.greedy] at hng⟩
@@ -912,7 +902,7 @@ theorem primOK_text : PrimOK .text := by
   obtain ⟨xs, rs, hb, hcase⟩ := snake_enc _ (bytesToBits bs) b b' he
   refine ⟨xs, rs, hb, ?_⟩
   intro s _ hc
-  rcases hc with hng | ⟨h1, h2⟩
+  rcases hc with hng | ⟨h1, h2, _⟩
   · simp [Prim.greedy] at hng
   · obtain ⟨s', hs'⟩ := snake_dec (bytesToBits bs) xs rs s h1 h2 hcase
     refine ⟨s', ?_, fun hng => by simp [Prim.greedy] at hng⟩
@@ -921,6 +911,27 @@ theorem primOK_text : PrimOK .text := by
 
 
 /-- every hand-written codec marked `proved` has its round-trip lemma -/
+theorem primOK_addrWc : PrimOK .addrWc := by
+  intro v b b' _ hd he
+  unfold Prim.inDom at hd
+  split at hd <;> try contradiction
+  rename_i wc addr _
+  simp only [Bool.and_eq_true, decide_eq_true_eq, beq_iff_eq] at hd
+  obtain ⟨⟨hlo, hhi⟩, hlen⟩ := hd
+  simp only [Prim.enc, Builder.writeInt, Builder.writeBytes] at he
+  obtain ⟨b1, hb1, he2⟩ := bind_ok_inv he
+  have e1 := Builder.writeBits_ok hb1
+  have e2 := Builder.writeBits_ok he2
+  refine ⟨Builder.intBitsGo wc 32 ++ bytesToBits addr, [], by rw [e2, e1, Builder.app_app]; simp, RTs.toRT ?_ _⟩
+  intro s _
+  have h1 := Slice.readInt_prepend s 32 wc (bytesToBits addr) [] (by omega) (by omega) (by omega) (by omega)
+  have h2 := Slice.readBytes_prepend s addr [] []
+  simp only [List.append_nil, hlen] at h2
+  have hw : (if (wc % 256 + 256) % 256 ≥ 128 then (wc % 256 + 256) % 256 - 256 else (wc % 256 + 256) % 256) = wc := by
+    split <;> omega
+  simp only [Prim.dec, h1, h2, bind, Outcome.bind, pure, hw]
+  rfl
+
 theorem primOK_of_proved : ∀ p : Prim, p.proved = true → PrimOK p
   | .unary, _ => primOK_unary
   | .any, _ => primOK_any
@@ -940,6 +951,7 @@ theorem primOK_of_proved : ∀ p : Prim, p.proved = true → PrimOK p
   | .text, _ => primOK_text
   | .vmCellSlice, _ => primOK_vmCellSlice
   | .payloadV1toV4, _ => primOK_payloadV1toV4
+  | .addrWc, _ => primOK_addrWc
   | .w5Actions, h => by simp [Prim.proved] at h
 
 
